@@ -231,6 +231,43 @@ def c17_run_one(prop, tier, root, idx, extra):
     return c17_execute(trace, tier, {"idx": idx, "seed": seed}, gen=True)
 
 
+def c17_registered(label, cfg, counters):
+    """The Gymnasium ids registered for a shipped file mean that file: same
+    scenario fields, and no wrapper that ends episodes before the file's own
+    step limit."""
+    import gymnasium as gym
+    ids = [k for k, v in gym.envs.registry.items()
+           if "nasim" in str(v.entry_point)
+           and (v.kwargs or {}).get("scenario") == label]
+    for gid in sorted(ids)[:4]:
+        spec = gym.envs.registry[gid]
+        try:
+            env = gym.make(gid)
+        except Exception as e:
+            raise Violation("C17.accept", "a registered Gymnasium id of a "
+                            "shipped file cannot be made", id=gid,
+                            error=f"{type(e).__name__}: {e}"[:300])
+        counters.hit("probe.registered_id_made")
+        c17_fields(env.unwrapped.scenario, cfg)
+        limits = [spec.max_episode_steps,
+                  getattr(env.spec, "max_episode_steps", None)]
+        w = env
+        while hasattr(w, "env"):
+            if type(w).__name__ == "TimeLimit":
+                limits.append(getattr(w, "_max_episode_steps", None))
+            w = w.env
+        for lim in limits:
+            if lim is not None and (cfg.step_limit is None
+                                    or lim != cfg.step_limit):
+                raise Violation(
+                    "C17.fields", "loaded scenario differs from the file: "
+                    "the registered Gymnasium environment ends episodes "
+                    "after another number of steps than the file's step "
+                    "limit", id=gid, wrapper_limit=lim,
+                    file_step_limit=cfg.step_limit)
+        env.close()
+
+
 def c17_execute(trace, tier, res, gen=False):
     import nasim
     seed, text = trace["seed"], trace["text"]
@@ -282,6 +319,8 @@ def c17_execute(trace, tier, res, gen=False):
         if any(h["firewall"] for h in cfg.hosts.values()):
             counters.hit("probe.host_deny_lists")
         c17_fields(scen, cfg)
+        if trace.get("label") in configs.SHIPPED:
+            c17_registered(trace["label"], cfg, counters)
         # episodes on nasim.load(path) with the model built from the file
         n_ep = 2 if gen else len(episodes)
         for ep in range(n_ep):
@@ -657,6 +696,65 @@ def operators():
     def _(doc, rng):
         doc["host_configurations"][rng.choice(_hosts(doc))]["os"] = \
             "no_such_os"
+        return True
+
+    def case_variant(name, defined):
+        for v in (name.upper(), name.capitalize(), name.lower(),
+                  name.swapcase()):
+            if v != name and v not in defined:
+                return v
+        return None
+
+    @op("host.os_case_variant")
+    def _(doc, rng):
+        # names are case sensitive: 'Linux' is not 'linux'
+        h = doc["host_configurations"][rng.choice(_hosts(doc))]
+        v = case_variant(str(h["os"]), doc["os"])
+        if v is None:
+            return False
+        h["os"] = v
+        return True
+
+    @op("host.service_case_variant")
+    def _(doc, rng):
+        h = doc["host_configurations"][rng.choice(_hosts(doc))]
+        if not h["services"]:
+            return False
+        v = case_variant(str(h["services"][0]), doc["services"])
+        if v is None:
+            return False
+        h["services"] = [v] + list(h["services"][1:])
+        return True
+
+    def action_os_case(sect):
+        def f(doc, rng):
+            cands = [n for n, e in (doc[sect] or {}).items()
+                     if str(e.get("os")).lower() != "none"]
+            if not cands:
+                return False
+            e = doc[sect][rng.choice(cands)]
+            v = case_variant(str(e["os"]), doc["os"])
+            if v is None or v.lower() == "none":
+                return False
+            e["os"] = v
+            return True
+        return f
+    ops["exploit.os_case_variant"] = action_os_case("exploits")
+    ops["privesc.os_case_variant"] = action_os_case("privilege_escalation")
+
+    @op("firewall.extra_entry_unknown_service")
+    def _(doc, rng):
+        # an entry nobody needs (a subnet to itself, or two subnets that are
+        # not connected) is still a firewall setting and must be valid
+        n = len(doc["subnets"])
+        pairs = [(i, i) for i in range(1, n + 1)] + [
+            (i, j) for i in range(1, n + 1) for j in range(1, n + 1)
+            if i != j and not doc["topology"][i][j]]
+        pairs = [pq for pq in pairs if A(*pq) not in doc["firewall"]]
+        if not pairs:
+            return False
+        doc["firewall"][A(*rng.choice(pairs))] = \
+            list(doc["services"][:1]) + ["no_such_name"]
         return True
 
     @op("host.os_none")
